@@ -21,6 +21,7 @@ func c19RandStr(g *srcGen, max int) string {
 }
 
 var c19TreeExtras = []string{
+	"<div><!--\n  multi\n  line\n--><p>a</p></div>", "<section><div><!-- first\n        second --><span>x</span></div></section>", "<!--\ntop\n--><ul><li><!--\n in li\n-->x</li></ul>",
 	"<div><!-- c --><p>a <b>b</b> <i>c</i>  d</p></div>", "<p>  lead <span> x </span> <em>y</em>tail  </p>", "<div>  text  <p></p><br><img src=\"a.png\"></div>",
 	"<span><i>x</i></span>", "<ul>\n  <li>one</li>\n  <li><a href=\"#\">two</a> </li>\n</ul>", "<div><span>a</span> <span>b</span></div>", "<section><h2>T <small>s</small></h2><div><p>x</p>y</div></section>",
 	"<script>if (a < b && c > d) { go(); }</script>", "<div><style>ul > li { margin: 0 }</style></div>", "<p><b> </b></p>", "<div> </div>", "<button><span>x</span><div>y</div></button>", "<label>Name <input name=\"n\"></label>", "<pre>\n\nx <b>\ny</b></pre>",
